@@ -5,7 +5,7 @@ import PhyModel.Proofs.PG3
 namespace PhyModel.PG
 open Orders Orders.Forest Proposal PGSpec Finset BigOperators
 
-variable {dt : Data} {c : Cfg} {σ : List ℕ} {L : List T}
+variable {dt : Data} {c : Cfg} {σ : List ℕ} {L : List T} {κ : ℚ}
 
 /-- summing the table probabilities over a finite type of trees containing every listed tree gives
 the total mass of the table -/
@@ -34,7 +34,7 @@ theorem level_mem_L (hL : ∀ x ∈ states c σ, x ∈ L) {t : ℕ} {x : T} (hx 
 
 theorem spec_parent_child (h : Hyp dt c σ) (hL : ∀ x ∈ states c σ, x ∈ L) (θ : ℚ) (m : ℕ)
     {t : ℕ} {x x' : St L} (hx : x.1 ∈ level c σ t) {i : ℕ} (hi : σ[t]? = some i)
-    (hc : x'.1 ∈ children c x.1 i) : (spec dt c σ L hL θ m).parent x' = x := by
+    (hc : x'.1 ∈ children c x.1 i) : (spec dt c σ κ L hL θ m).parent x' = x := by
   have hp := parentT_child h hx hi hc
   show (if h : parentT σ x'.1 ∈ L then (⟨_, h⟩ : St L) else x') = x
   have hm : parentT σ x'.1 ∈ L := by rw [hp]; exact x.2
@@ -43,17 +43,17 @@ theorem spec_parent_child (h : Hyp dt c σ) (hL : ∀ x ∈ states c σ, x ∈ L
 
 /-- **Stage 1.**  The PhyClone instance satisfies the hypotheses of the abstract conditional-SMC
 theorem up to the horizon `σ.length`. -/
-theorem spec_valid (h : Hyp dt c σ) (hL : ∀ x ∈ states c σ, x ∈ L) (θ : ℚ) (m : ℕ) :
-    ASMC.ValidTo (spec dt c σ L hL θ m) σ.length where
+theorem spec_valid (h : Hyp dt c σ) (hκ : 0 < κ) (hL : ∀ x ∈ states c σ, x ∈ L) (θ : ℚ) (m : ℕ) :
+    ASMC.ValidTo (spec dt c σ κ L hL θ m) σ.length where
   g0 := by
     intro x
-    show gT dt c σ 0 x.1 = _
+    show gT dt c σ κ 0 x.1 = _
     unfold gT
     simp only [level, List.mem_singleton, if_true]
     by_cases hx : x.1 = T.empty
     · rw [if_pos hx, if_pos (Subtype.ext hx)]
     · rw [if_neg hx, if_neg (fun h' => hx (congrArg Subtype.val h'))]
-  gnn := fun t x => gT_nonneg h t x.1
+  gnn := fun t x => gT_nonneg h hκ t x.1
   qnn := fun t x x' => qT_nonneg h t x.1 x'.1
   qsum := by
     intro t x ht hg
@@ -74,34 +74,36 @@ theorem spec_valid (h : Hyp dt c σ) (hL : ∀ x ∈ states c σ, x ∈ L) (θ :
   qsupp := by
     intro t x x' _ _ hq
     obtain ⟨hx, i, hi, hc⟩ := of_qT_pos h hq
-    exact gT_pos h (child_mem_level hx hi hc)
+    exact gT_pos h hκ (child_mem_level hx hi hc)
   gsupp := by
     intro t x' _ hg
     have hx' := mem_of_gT_pos hg
     obtain ⟨i, hi, p, hp, hc⟩ := mem_level_succ.mp hx'
-    have hpar : (spec dt c σ L hL θ m).parent x' = ⟨p, level_mem_L hL hp⟩ :=
+    have hpar : (spec dt c σ κ L hL θ m).parent x' = ⟨p, level_mem_L hL hp⟩ :=
       spec_parent_child h hL θ m (x := ⟨p, level_mem_L hL hp⟩) hp hi hc
     rw [hpar]
-    exact ⟨gT_pos h hp, qT_pos h hp hi hc⟩
+    exact ⟨gT_pos h hκ hp, qT_pos h hp hi hc⟩
   rssymm := fun t w τ => essRule_symm θ m t w τ
 
 /-- **Conditional SMC along a fixed order leaves `pOne · pdf` on the complete trees reachable along
 that order invariant** — any number of particles `m + 1`, any threshold, any `u > 0`. -/
-theorem pg_csmc_invariant (h : Hyp dt c σ) (hL : ∀ x ∈ states c σ, x ∈ L) (θ : ℚ) (m : ℕ) (u : ℚ)
-    (hu : 0 < u) (y : St L) :
-    ∑ x : St L, gT dt c σ σ.length x.1 * ASMC.kernel (spec dt c σ L hL θ m) u σ.length x y
-      = gT dt c σ σ.length y.1 :=
-  ASMC.csmc_invariant_to (spec_valid h hL θ m) hu y
+theorem pg_csmc_invariant (h : Hyp dt c σ) (hκ : 0 < κ) (hL : ∀ x ∈ states c σ, x ∈ L) (θ : ℚ) (m : ℕ)
+    (u : ℚ) (hu : 0 < u) (y : St L) :
+    ∑ x : St L, gT dt c σ κ σ.length x.1 * ASMC.kernel (spec dt c σ κ L hL θ m) u σ.length x y
+      = gT dt c σ κ σ.length y.1 :=
+  ASMC.csmc_invariant_to (spec_valid h hκ hL θ m) hu y
 
-/-- the abstract incremental weight is the model's `incrWeight` (with the table probability as `q`) -/
-theorem incr_eq_incrWeight (h : Hyp dt c σ) (hL : ∀ x ∈ states c σ, x ∈ L) (θ : ℚ) (m : ℕ)
+/-- the abstract incremental weight is the model's `incrWeight` (with the table probability as `q`),
+times `κ` at the first step -/
+theorem incr_eq_incrWeight (h : Hyp dt c σ) (hκ : 0 < κ) (hL : ∀ x ∈ states c σ, x ∈ L) (θ : ℚ) (m : ℕ)
     {t : ℕ} {x x' : St L} (hx : x.1 ∈ level c σ t) {i : ℕ} (hi : σ[t]? = some i)
     (hc : x'.1 ∈ children c x.1 i) :
-    ASMC.incr (spec dt c σ L hL θ m) t x x'
-      = incrWeight dt c (t == 0) (t + 1 == σ.length) x.1 x'.1 (tprob (table dt c (t == 0) x.1 i) x'.1) := by
+    ASMC.incr (spec dt c σ κ L hL θ m) t x x'
+      = (if t = 0 then κ else 1) *
+        incrWeight dt c (t == 0) (t + 1 == σ.length) x.1 x'.1 (tprob (table dt c (t == 0) x.1 i) x'.1) := by
   have hx' := child_mem_level hx hi hc
   have hM' := ne_of_gt (level_pMarg_pos h hx')
-  show gT dt c σ (t+1) x'.1 / (gT dt c σ t x.1 * qT dt c σ t x.1 x'.1) = _
+  show gT dt c σ κ (t+1) x'.1 / (gT dt c σ κ t x.1 * qT dt c σ t x.1 x'.1) = _
   have hq : qT dt c σ t x.1 x'.1 = tprob (table dt c (t == 0) x.1 i) x'.1 := by
     unfold qT; rw [if_pos hx]; simp only [hi]
   rw [hq]
@@ -115,10 +117,11 @@ theorem incr_eq_incrWeight (h : Hyp dt c σ) (hL : ∀ x ∈ states c σ, x ∈ 
   · subst ht
     by_cases hl : 0 + 1 = σ.length
     · simp [hl]; field_simp
-    · simp [hl]
-  · by_cases hl : t + 1 = σ.length
+    · simp [hl]; ring
+  · have hκ0 := ne_of_gt hκ
+    by_cases hl : t + 1 = σ.length
     · simp [ht, hl]; field_simp
-    · simp [ht, hl]
+    · simp [ht, hl]; field_simp
 
 #print axioms pg_csmc_invariant
 end PhyModel.PG
